@@ -65,3 +65,7 @@ Ltac all_pcs_used :=
       | _ => fail 2 "path condition recorded by the tracer is not tested by the model:" c
       end
   end.
+
+(* a stubbed callee returning a pair: eta-expanded so that its result is convertible with the
+   traced tuple (fst (f a), snd (f a)) *)
+Definition okpair {A B C} (f : A -> B * C) : A -> res (B * C) := fun a => Ok (fst (f a), snd (f a)).
